@@ -284,7 +284,7 @@ func TestVerif_C14(t *testing.T) {
 		return bScenario{Name: o.name, Bound: b, BoundT: bt, Body: c14Body(o), Live: true}
 	}
 	runBScenarios(t, "C14", []bScenario{
-		mk(c14Opts{name: "echo-client-close", work: "echo", closer: "client"}, 2, 3),
+		mk(c14Opts{name: "echo-client-close", work: "echo", closer: "client"}, 1, 2),
 		mk(c14Opts{name: "echo-server-close-file", work: "echo", closer: "server", file: true}, 1, 2),
 		mk(c14Opts{name: "echo-both-close", work: "echo", closer: "both"}, 1, 2),
 		mk(c14Opts{name: "echo-double-close", work: "echo", closer: "double-client"}, 1, 2),
@@ -294,7 +294,7 @@ func TestVerif_C14(t *testing.T) {
 		mk(c14Opts{name: "callback-echo-kill-client", work: "callback-echo", closer: "kill-client"}, 1, 2),
 		mk(c14Opts{name: "hold-stream-kill-server", work: "hold-stream", closer: "kill-server"}, 1, 2),
 		mk(c14Opts{name: "hold-stream-client-close", work: "hold-stream", closer: "client"}, 1, 2),
-		mk(c14Opts{name: "open-streams-vs-close", work: "open-streams", closer: "client"}, 1, 2),
+		mk(c14Opts{name: "open-streams-vs-close", work: "open-streams", closer: "client"}, 2, 3),
 		mk(c14Opts{name: "metrics-vs-close", work: "metrics", closer: "client"}, 1, 2),
 		mk(c14Opts{name: "flush-full-queue-vs-close", work: "flush-full-queue", closer: "client", queueCap: 1, stallPeer: true}, 2, 3),
 		mk(c14Opts{name: "flush-full-queue-vs-kill-server", work: "flush-full-queue", closer: "kill-server", queueCap: 1, stallPeer: true}, 1, 2),
